@@ -91,9 +91,12 @@ func clonePL(c absPL) absPL {
 	return d
 }
 
-func randomScenario(r *rand.Rand) *authScenario {
+func randomScenario(r *rand.Rand) *authScenario { return randomScenarioOf(r, pick(r, AllVersions...)) }
+
+// randomScenarioOf draws a scenario of the given room version.
+func randomScenarioOf(r *rand.Rand, ver string) *authScenario {
 	sc := &authScenario{Fam: "random"}
-	sc.Ver = pick(r, AllVersions...)
+	sc.Ver = ver
 	priv := isDomainless(sc.Ver)
 	st := &sc.St
 	st.Create.Present = r.Float64() < 0.95
